@@ -1143,8 +1143,20 @@ def moveaxis_first_last(a, k=1):
 
 
 # ------------------------------------------------------------------ creation
+def _unwrap_arraylike(x):
+    """xarray-like wrappers (symxr.DataArray) expose their array as .values / __sarr__"""
+    if hasattr(x, "__sarr__"):
+        return x.__sarr__()
+    if not isinstance(x, (SArr, Sym, _np.ndarray, list, tuple, str, bytes, int, float, bool)) and isinstance(getattr(x, "values", None), SArr):
+        return x.values
+    if isinstance(x, (list, tuple)):
+        return type(x)(_unwrap_arraylike(e) for e in x)
+    return x
+
+
 def array(x, dtype=None, copy=True, ndmin=0):
     dt = as_dtype(dtype, none_ok=True)
+    x = _unwrap_arraylike(x)
     if isinstance(x, SArr):
         r = x.copy()
         return r.astype(dt) if dt is not None and dt != r.dtype else r
